@@ -1,3 +1,204 @@
 import Driver.Common
--- stub driver for C09 (replaced when the property's model is built)
-def main (args : List String) : IO UInt32 := Driver.main' (fun _ => "bad-op") (fun _ _ => "fail bad-op") args
+import GilVerif.Model.C09
+open Driver GilVerif.Model.C09 GilVerif.Gen.C09
+
+def splitBars (ws : List String) : List (List String) :=
+  let rec go (ws : List String) (cur : List String) (acc : List (List String)) : List (List String) :=
+    match ws with
+    | [] => (cur.reverse :: acc).reverse
+    | "|" :: rest => go rest [] (cur.reverse :: acc)
+    | w :: rest => go rest (w :: cur) acc
+  go ws [] []
+
+/-- `<layout><depth>` -> colour space and channel depth (layouts only permute storage; values are semantic) -/
+def parsePix (s : String) : Option (Space × Depth) :=
+  let try1 (pre : String) (sp : Space) : Option (Space × Depth) :=
+    if s.startsWith pre then
+      match (s.drop pre.length).toString with
+      | "8" => some (sp, .d8) | "16" => some (sp, .d16) | "32f" => some (sp, .d32f) | _ => none
+    else none
+  (try1 "gray" .gray).orElse fun _ => (try1 "rgba" .rgba).orElse fun _ => (try1 "bgra" .rgba).orElse fun _ =>
+  (try1 "argb" .rgba).orElse fun _ => (try1 "abgr" .rgba).orElse fun _ => (try1 "rgb" .rgb).orElse fun _ =>
+  (try1 "bgr" .rgb).orElse fun _ => (try1 "cmyk" .cmyk)
+
+def parseDepth : String → Option Depth
+  | "8" => some .d8 | "16" => some .d16 | "32f" => some .d32f | _ => none
+
+/-- aux part of a `cc` observation as the model predicts it -/
+def auxOf (c1 c2 : Space) (s t : Depth) (p out : List Int) : List Int :=
+  if c1 = .rgb ∧ c2 = .cmyk then colorConvert .cmyk .rgb t s out
+  else if c1 = .rgba ∧ c2 ≠ .rgba then let pm := premultiply s p; pm ++ colorConvert .rgb c2 s t pm
+  else if c1 = c2 then p.map (chConv s t)
+  else []
+
+/-- pixels of a `ccv` image: values reused cyclically -/
+def ccvPixels (n w h : Nat) (v : List Int) : List (List Int) :=
+  (List.range (w * h)).map fun i => (List.range n).map fun k => v.getD ((i * n + k) % v.length) 0
+
+/-! ### sweeps: FNV-style hash over all outputs, Spec evaluated on every pixel -/
+
+@[inline] def hadd (h : UInt64) (v : Int) : UInt64 := h * 1099511628211 + v.toNat.toUInt64
+def h0 : UInt64 := 1469598103934665603
+
+/-- Spec clauses for one rgb8 pixel and the outputs (gray, cmyk, back); lumN = luminance of the three upper neighbours -/
+def specRgb8 (r g b y : Int) (c back : List Int) : Bool :=
+  let w := 30 * r + 59 * g + 11 * b
+  (if r = g ∧ g = b then y = r else true)
+  && (100 * y - w).natAbs ≤ 100
+  && (r ≥ 255 || lum8 (r + 1) g b ≥ y) && (g ≥ 255 || lum8 r (g + 1) b ≥ y) && (b ≥ 255 || lum8 r g (b + 1) ≥ y)
+  && ((back.zip [r, g, b]).all fun (x, o) => (x - o).natAbs ≤ 1)
+  && (if r = 0 ∧ g = 0 ∧ b = 0 then c == [0, 0, 0, 255] else true)
+  && (if r = 255 ∧ g = 255 ∧ b = 255 then c == [0, 0, 0, 0] else true)
+  && 0 ≤ y && y ≤ 255 && c.all (fun x => 0 ≤ x && x ≤ 255) && back.all (fun x => 0 ≤ x && x ≤ 255)
+
+/-- all (g,b) of one r plane: (hash, number of Spec failures, first failing (g,b)) -/
+def sweep8 (r : Int) : UInt64 × Nat × Option (Nat × Nat) :=
+  (List.range 256).foldl (fun acc (g : Nat) => (List.range 256).foldl (fun (h, nf, first) (b : Nat) =>
+      let gi : Int := g; let bi : Int := b
+      let y := lum .d8 .d8 r gi bi
+      let c := rgbToCmyk .d8 .d8 r gi bi
+      let back := colorConvert .cmyk .rgb .d8 .d8 c
+      let h := hadd h y
+      let h := c.foldl hadd h
+      let h := back.foldl hadd h
+      if specRgb8 r gi bi y c back then (h, nf, first) else (h, nf + 1, first.orElse fun _ => some (g, b))) acc)
+    (h0, 0, none)
+
+def sweepA (g b : Int) : UInt64 × Nat × Option (Nat × Nat) :=
+  (List.range 256).foldl (fun acc (r : Nat) => (List.range 256).foldl (fun (h, nf, first) (a : Nat) =>
+      let ri : Int := r; let ai : Int := a
+      let p := [ri, g, b, ai]
+      let o1 := colorConvert .rgba .rgb .d8 .d8 p
+      let o2 := colorConvert .rgba .gray .d8 .d8 p
+      let o3 := colorConvert .rgba .cmyk .d8 .d8 p
+      let o4 := colorConvert .rgb .rgba .d8 .d8 o1
+      let pm := premultiply .d8 p
+      let ok := o1 == colorConvert .rgb .rgb .d8 .d8 pm && o2 == colorConvert .rgb .gray .d8 .d8 pm
+                && o3 == colorConvert .rgb .cmyk .d8 .d8 pm && nth o4 3 == 255
+                && ((pm.zip [ri, g, b]).all fun (m, s) => (255 * m - s * ai).natAbs ≤ 255)
+      let h := o1.foldl hadd h
+      let h := hadd h (nth o2 0)
+      let h := o3.foldl hadd h
+      let h := hadd h (nth o4 3)
+      if ok then (h, nf, first) else (h, nf + 1, first.orElse fun _ => some (r, a))) acc)
+    (h0, 0, none)
+
+def showSweep (x : UInt64 × Nat × Option (Nat × Nat)) : String :=
+  let (h, nf, first) := x
+  s!"{h.toNat} {nf} " ++ (match first with | some (a, b) => s!"{a} {b}" | none => "-")
+
+def model (line : String) : String :=
+  match words line with
+  | "cc" :: src :: dst :: vs =>
+    match parsePix src, parsePix dst, ints vs with
+    | some (c1, s), some (c2, t), some p =>
+      if p.length ≠ c1.size then "bad-op" else
+      let out := colorConvert c1 c2 s t p
+      showInts out ++ " | " ++ showInts (auxOf c1 c2 s t p out)
+    | _, _, _ => "bad-op"
+  | "ccv" :: src :: dst :: w :: h :: vs =>
+    match parsePix src, parsePix dst, ints [w, h], ints vs with
+    | some (c1, s), some (c2, t), some [w, h], some v =>
+      if v.isEmpty ∨ w < 1 ∨ h < 1 ∨ w * h > 64 then "bad-op" else
+      let px := ccvPixels c1.size w.toNat h.toNat v
+      showInts ((px.map (colorConvert c1 c2 s t)).flatten) ++ " | 1 1"
+    | _, _, _, _ => "bad-op"
+  | ["lumax", sd, td, axis, r, g, b, n, step] =>
+    match parseDepth sd, parseDepth td, ints [axis, r, g, b, n, step] with
+    | some s, some t, some [axis, r, g, b, n, step] =>
+      showInts ((List.range n.toNat).map fun i =>
+        let d := Int.ofNat i * step
+        lum s t (if axis = 0 then r + d else r) (if axis = 1 then g + d else g) (if axis = 2 then b + d else b))
+    | _, _, _ => "bad-op"
+  | ["sweep8", r] => match ints [r] with | some [r] => showSweep (sweep8 r) | _ => "bad-op"
+  | ["sweepA", g, b] => match ints [g, b] with | some [g, b] => showSweep (sweepA g b) | _ => "bad-op"
+  | _ => "bad-op"
+
+def monotoneD (d : Depth) : List Int → Bool
+  | a :: b :: rest => (if d.isFloat then (f32 a).toFloat ≤ (f32 b).toFloat else a ≤ b) && monotoneD d (b :: rest)
+  | _ => true
+
+def hasColor (c : Space) : Bool := c ≠ .gray
+
+/-- |y - (0.30 r + 0.59 g + 0.11 b)| ≤ one unit (the coarser of the source / destination units) -/
+def lumWithin (s t : Depth) (r g b y : Int) : Bool :=
+  if s = .d8 ∧ t = .d8 then (100 * y - (30 * r + 59 * g + 11 * b)).natAbs ≤ 100
+  else
+    let e := Float.abs (unit t y - (0.30 * unit s r + 0.59 * unit s g + 0.11 * unit s b))
+    let u := if unitStep s > unitStep t then unitStep s else unitStep t
+    e ≤ u + 1.0e-9
+
+/-- Spec clauses of one single-pixel conversion -/
+def ccSpec (c1 c2 : Space) (s t : Depth) (p out aux : List Int) : Option String :=
+  if out.length ≠ c2.size then some "shape"
+  else if !(out.all (inRange t)) then some "range"
+  else if hasColor c1 && hasColor c2 && isBlack c1 s p && !isBlack c2 t out then some "black-to-black"
+  else if hasColor c1 && hasColor c2 && isWhite c1 s p && !isWhite c2 t out then some "white-to-white"
+  else if c1 = .rgb ∧ c2 = .gray ∧ s = .d8 ∧ t = .d8 ∧ nth p 0 = nth p 1 ∧ nth p 1 = nth p 2 ∧ nth out 0 ≠ nth p 0 then some "gray-exact"
+  else if c1 = .rgb ∧ c2 = .gray ∧ !lumWithin s t (nth p 0) (nth p 1) (nth p 2) (nth out 0) then some "luminance-within-one-unit"
+  else if c1 = .gray ∧ c2 = .rgb ∧ ¬ (nth out 0 = nth out 1 ∧ nth out 1 = nth out 2 ∧ (s = t → nth out 0 = nth p 0)) then some "gray-to-rgb"
+  -- "within one 8-bit level": measured in 8-bit levels, i.e. after channel_convert to uint8_t (rgb -> cmyk quantises to 8 bits by design)
+  else if c1 = .rgb ∧ c2 = .cmyk ∧ (aux.length ≠ 3 ∨ !((aux.zip p).all fun (x, o) => (chConv s .d8 x - chConv s .d8 o).natAbs ≤ 1)) then some "cmyk-round-trip"
+  else if c1 = .rgba ∧ c2 ≠ .rgba ∧ (aux.length ≠ 3 + c2.size ∨ aux.drop 3 ≠ out) then some "rgba-premultiplied"
+  else if c1 = .rgba ∧ c2 ≠ .rgba ∧ !(((aux.take 3).zip (p.take 3)).all fun (m, x) =>
+      Float.abs (unit s m - unit s x * unit s (nth p 3)) ≤ unitStep s + 1.0e-9) then some "premultiply-within-one-unit"
+  else if c2 = .rgba ∧ c1 ≠ .rgba ∧ nth out 3 ≠ t.maxV then some "alpha-max"
+  else if c1 = c2 ∧ aux ≠ out then some "same-space-per-channel"
+  else none
+
+def judge (op obs : String) : String :=
+  let fail (s : String) := "fail " ++ s
+  match words op with
+  | "cc" :: src :: dst :: vs =>
+    match parsePix src, parsePix dst, ints vs, splitBars (words obs) with
+    | some (c1, s), some (c2, t), some p, [o, a] =>
+      match ints o, ints a with
+      | some out, some aux => match ccSpec c1 c2 s t p out aux with | some e => fail e | none => "ok"
+      | _, _ => fail ("not-a-value:" ++ (obs.take 40).toString)
+    | _, _, _, _ => fail ("not-a-value:" ++ (obs.take 40).toString)
+  | "ccv" :: src :: dst :: w :: h :: vs =>
+    match parsePix src, parsePix dst, ints [w, h], ints vs, splitBars (words obs) with
+    | some (_, _), some (c2, t), some [w, h], some _, [o, f] =>
+      match ints o with
+      | some outs =>
+        if f ≠ ["1", "1"] then fail "view-agrees"
+        else if outs.length ≠ (w * h).toNat * c2.size then fail "shape"
+        else if !(outs.all (inRange t)) then fail "range"
+        else "ok"
+      | none => fail ("not-a-value:" ++ (obs.take 40).toString)
+    | _, _, _, _, _ => fail ("not-a-value:" ++ (obs.take 40).toString)
+  | ["lumax", sd, td, axis, r, g, b, n, step] =>
+    match parseDepth sd, parseDepth td, ints [axis, r, g, b, n, step], ints (words obs) with
+    | some s, some t, some [axis, r, g, b, n, step], some ys =>
+      if ys.length ≠ n.toNat then fail "shape"
+      else if !(ys.all (inRange t)) then fail "range"
+      else if step > 0 ∧ !monotoneD t ys then fail "luminance-monotone"
+      else
+        let bad := (List.range n.toNat).zip ys |>.any fun (i, y) =>
+          let d := Int.ofNat i * step
+          !lumWithin s t (if axis = 0 then r + d else r) (if axis = 1 then g + d else g) (if axis = 2 then b + d else b) y
+        if bad then fail "luminance-within-one-unit" else "ok"
+    | _, _, _, _ => fail ("not-a-value:" ++ (obs.take 40).toString)
+  | ["sweep8", r] =>
+    -- the judge recomputes every output of the plane in Lean, evaluates the Spec on each, and accepts the
+    -- implementation's plane iff its hash equals the hash of the judged outputs (and its own count is 0)
+    match ints [r], words obs with
+    | some [r], hs :: nf :: _ =>
+      let (h, n, first) := sweep8 r
+      if n ≠ 0 then fail s!"sweep8-spec {first}"
+      else if hs ≠ toString h.toNat then fail "sweep8-hash"
+      else if nf ≠ "0" then fail "sweep8-cxx-spec"
+      else "ok"
+    | _, _ => fail ("not-a-value:" ++ (obs.take 40).toString)
+  | ["sweepA", g, b] =>
+    match ints [g, b], words obs with
+    | some [g, b], hs :: nf :: _ =>
+      let (h, n, first) := sweepA g b
+      if n ≠ 0 then fail s!"sweepA-spec {first}"
+      else if hs ≠ toString h.toNat then fail "sweepA-hash"
+      else if nf ≠ "0" then fail "sweepA-cxx-spec"
+      else "ok"
+    | _, _ => fail ("not-a-value:" ++ (obs.take 40).toString)
+  | _ => fail "bad-op"
+
+def main (args : List String) : IO UInt32 := Driver.main' model judge args
